@@ -146,7 +146,8 @@ def step2(present: bool, s: str, r: str, a0: bool, a1: bool, a2: bool, b0: bool,
     pre: s in V3 and r in V3 and not (s == "no" and r == "no")
     post: _
     """
-    tick()
+    if tick():
+        return True
     a, b = bits(a0, a1, a2), bits(b0, b1, b2)
     if a >= 7 or b >= 7:
         return True
@@ -163,7 +164,8 @@ def step3(present: bool, s: str, r: str, b0: bool, b1: bool, b2: bool,
     pre: s in V3 and r in V3 and not (s == "no" and r == "no")
     post: _
     """
-    tick()
+    if tick():
+        return True
     shape, a = [int(x) for x in (PART or "2,0").split(",")]
     b, c = bits(b0, b1, b2), bits(c0, c1, c2)
     if b >= 7 or c >= 7:
@@ -179,7 +181,8 @@ def step4(present: bool, s: str, r: str, c0: bool, c1: bool, c2: bool, d0: bool,
     pre: s in V3 and r in V3 and not (s == "no" and r == "no")
     post: _
     """
-    tick()
+    if tick():
+        return True
     shape, a, b = [int(x) for x in (PART or "3,0,1").split(",")]
     c, d = bits(c0, c1, c2), bits(d0, d1, d2)
     if c >= 7 or d >= 7:
@@ -207,7 +210,8 @@ def whole_program(k0: bool, k1: bool, k2: bool) -> bool:
     pre: True
     post: _
     """
-    tick()
+    if tick():
+        return True
     from pedal.tifa import tifa_analysis
     from pedal.core.commands import contextualize_report
     k = bits(k0, k1, k2)
@@ -231,7 +235,8 @@ def step_reach(s: str, r: str) -> bool:
     pre: s in V3 and r in V3
     post: _
     """
-    tick()
+    if tick():
+        return True
     code = "print(x)"
     tree = ast.parse(code)
     t = _tifa(code)
@@ -274,7 +279,8 @@ def loops(present: bool, s: str, r: str, a0: bool, a1: bool, a2: bool, b0: bool,
     pre: s in V3 and r in V3 and not (s == "no" and r == "no")
     post: _
     """
-    tick()
+    if tick():
+        return True
     kind = int(PART) if PART else 0
     a, b = bits(a0, a1, a2), bits(b0, b1, b2)
     if a >= 7 or b >= 7:
@@ -308,19 +314,20 @@ def loops(present: bool, s: str, r: str, a0: bool, a1: bool, a2: bool, b0: bool,
 FUNC_ATOMS = ["print(x)", "y = x", "pass", "print(c)"]
 
 
-def calls(present: bool, s: str, r: str, c0: bool, c1: bool, c2: bool, d0: bool, d1: bool, d2: bool) -> bool:
+def calls(present: bool, s: str, r: str, c0: bool, c1: bool, c2: bool) -> bool:
     """
-    Partition "a,b":   def f(): A  /  if c: B; f()  else: C; f()  /  D     with A from {print(x), y = x, pass, print(c)}
+    Partition "a,b,d":   def f(): A  /  if c: B; f()  else: C; f()  /  D     with A from {print(x), y = x, pass, print(c)}
     reading the module-level x: every read of x (inside f at either call, or at module level) that is unassigned on some
     execution is reported at its line with one of the initialization labels.
 
     pre: s in V3 and r in V3 and not (s == "no" and r == "no")
     post: _
     """
-    tick()
-    a, b = [int(v) for v in (PART or "0,0").split(",")]
-    c, d = bits(c0, c1, c2), bits(d0, d1, d2)
-    if c >= 7 or d >= 7:
+    if tick():
+        return True
+    a, b, d = [int(v) for v in (PART or "0,0,1").split(",")]
+    c = bits(c0, c1, c2)
+    if c >= 7:
         return True
     if excluded("C09.calls", a=a, b=b, c=c, d=d, present=present, s=s, r=r):
         return True
